@@ -199,7 +199,4 @@ CLAIMED = {
 NOT_YET = "not claimed yet: model/proofs for this property are not built in this revision (see DESIGN.md section 9 build order)"
 
 # properties whose check exists but is temporarily not claimed (reason goes to MANIFEST.not_applicable)
-SUSPENDED = {
-    "C04": "temporarily not claimed: the C04 model is being reconciled with later fix: commits on /repo (tolerant DictArray.load, atomic writes); check and theorems exist (see DESIGN.md)",
-    "C12": "temporarily not claimed: the C12 translator table/model is being reconciled with later fix: commits on /repo (atomic run_info.json written last); check and theorems exist (see DESIGN.md)",
-}
+SUSPENDED = {}
